@@ -305,8 +305,17 @@ func init() {
 				ast.Inspect(fd.Body, func(n ast.Node) bool {
 					if is, ok := n.(*ast.IfStmt); ok {
 						if strings.Contains(exprStr(is.Cond), `Default == ""`) {
+							emits := false
+							ast.Inspect(is.Body, func(m ast.Node) bool {
+								if ce, ok := m.(*ast.CallExpr); ok {
+									if se, ok := ce.Fun.(*ast.SelectorExpr); ok && se.Sel.Name == "P" {
+										emits = true
+									}
+								}
+								return true
+							})
 							for _, s := range is.Body.List {
-								if bs, ok := s.(*ast.BranchStmt); ok && bs.Tok == token.CONTINUE {
+								if bs, ok := s.(*ast.BranchStmt); ok && bs.Tok == token.CONTINUE && !emits {
 									skips = true
 								}
 							}
